@@ -109,21 +109,22 @@ FLAGS = ["C", "Z", "N", "V", "S", "H", "T", "I"]
 for i, f in enumerate(FLAGS):
     row("se" + f.lower(), "Se", "1001 0100 0%s 1000" % "{:03b}".format(i), sub=f, alias_of="bset %d" % i)
     row("cl" + f.lower(), "Cl", "1001 0100 1%s 1000" % "{:03b}".format(i), sub=f, alias_of="bclr %d" % i)
-# loads / stores: ld/ldd share all forms, st/std likewise (bit 9 set)
+# loads / stores: ld/st have the nine pointer forms without displacement, ldd/std the two with one (bit 9 set = store)
 LD = [("X", "None", "1001 000d dddd 1100"), ("X", "PostIncrement", "1001 000d dddd 1101"), ("X", "PreDecrement", "1001 000d dddd 1110"),
       ("Y", "None", "1000 000d dddd 1000"), ("Y", "PostIncrement", "1001 000d dddd 1001"), ("Y", "PreDecrement", "1001 000d dddd 1010"),
       ("Y", "PostIncrementE", "10q0 qq0d dddd 1qqq"),
       ("Z", "None", "1000 000d dddd 0000"), ("Z", "PostIncrement", "1001 000d dddd 0001"), ("Z", "PreDecrement", "1001 000d dddd 0010"),
       ("Z", "PostIncrementE", "10q0 qq0d dddd 0qqq")]
 for r16, mode, pat in LD:
-    q = imm("q", 0, 63) if mode == "PostIncrementE" else None
-    for mn, op in (("ld", "Ld"), ("ldd", "Ldd")):
-        row(mn, op, pat, [reg("d"), index(r16, mode, q)])
+    displaced = mode == "PostIncrementE"
+    q = imm("q", 0, 63) if displaced else None
+    mn, op = ("ldd", "Ldd") if displaced else ("ld", "Ld")
+    row(mn, op, pat, [reg("d"), index(r16, mode, q)])
     spat = pat.replace(" ", "")
     spat = spat[:6] + "1" + spat[7:]          # bit 9
     spat = spat.replace("d", "r")
-    for mn, op in (("st", "St"), ("std", "Std")):
-        row(mn, op, spat, [index(r16, mode, q), reg("r")])
+    mn, op = ("std", "Std") if displaced else ("st", "St")
+    row(mn, op, spat, [index(r16, mode, q), reg("r")])
 row("lds", "Lds", "1001 000d dddd 0000 kkkk kkkk kkkk kkkk", [reg("d"), imm("k", 0, 65535)], core="std")
 row("sts", "Sts", "1001 001r rrrr 0000 kkkk kkkk kkkk kkkk", [imm("k", 0, 65535), reg("r")], core="std")
 # reduced core (AVRrc): 1010 0kkk dddd kkkk ; field bits (MSB..LSB of the 7-bit field) = k6? no: b10..9 = k5..4, b8 = k6, b3..0 = k3..0
@@ -131,6 +132,7 @@ row("sts", "Sts", "1001 001r rrrr 0000 kkkk kkkk kkkk kkkk", [imm("k", 0, 65535)
 AVR8L_FIELD = "(((v >> 4) & 3) << 5) | (((v >> 6) & 1) << 4) | (v & 15)"
 row("lds", "Lds", "1010 0kkk dddd kkkk", [reg("d", HIGH, "v - 16"), imm("k", 0x40, 0xBF, AVR8L_FIELD)], core="avr8l")
 row("sts", "Sts", "1010 1kkk rrrr kkkk", [imm("k", 0x40, 0xBF, AVR8L_FIELD), reg("r", HIGH, "v - 16")], core="avr8l")
+row("spm", "Spm", "1001 0101 1111 1000", [index("Z", "PostIncrement")])
 row("lpm", "Lpm", "1001 0101 1100 1000")
 row("lpm", "Lpm", "1001 000d dddd 0100", [reg("d"), index("Z", "None")])
 row("lpm", "Lpm", "1001 000d dddd 0101", [reg("d"), index("Z", "PostIncrement")])
@@ -140,8 +142,15 @@ row("elpm", "Elpm", "1001 000d dddd 0111", [reg("d"), index("Z", "PostIncrement"
 
 MNEMONICS = sorted({r["mn"] for r in ROWS})
 
+# The reduced core (AVRrc: ATtiny4/5/9/10/20/40) has r16..r31 only: on it every register operand is legal only in that half.
+# Instructions the reduced core does not have at all (their removal is the device gate's business, C13) are listed so that
+# C01 does not demand that their operands be accepted there.
+REDUCED_CORE = {"registers": HIGH,
+                "absent_ops": ["Adiw", "Sbiw", "Mul", "Muls", "Mulsu", "Fmul", "Fmuls", "Fmulsu", "Jmp", "Call", "Eijmp", "Eicall",
+                               "Lpm", "Elpm", "Spm", "Movw", "Ldd", "Std"]}
+
 if __name__ == "__main__":
-    out = {"source": "AVR Instruction Set Manual (written independently of the repository)", "mnemonics": MNEMONICS, "rows": ROWS}
+    out = {"source": "AVR Instruction Set Manual (written independently of the repository)", "mnemonics": MNEMONICS, "rows": ROWS, "reduced_core": REDUCED_CORE}
     with open(os.path.join(os.path.dirname(os.path.abspath(__file__)), "avr_isa.json"), "w") as fh:
         json.dump(out, fh, indent=0)
     print(len(ROWS), "rows,", len(MNEMONICS), "mnemonics")
